@@ -87,6 +87,10 @@ impl<T> Trace<T> {
             }
         }
 
+        // A route listing several ip ranges is stored, and traced, once per range: report it once
+        let mut seen = std::collections::HashSet::new();
+        routes.retain(|route: &Arc<Route<T>>| seen.insert(route.id().to_string()));
+
         routes
     }
 }
